@@ -926,3 +926,33 @@ pub proof fn lemma_no_event_no_valid(es: Seq<Ev>, f: PV)
         lemma_no_event_no_valid(es.drop_last(), f);
     }
 }
+//@tags C06
+/// NOTHING IS DUPLICATED: after any history every definition d occurs in the index (bucket of its name) exactly as often
+/// as ONE analysis of the latest valid content of d's file records it (0 times when that file never parsed)
+pub proof fn lemma_C06_multiplicity_is_single_analysis(es: Seq<Ev>, d: DefV)
+    requires visitors_file_local()
+    ensures bucket(run(idx_empty(), es).defs, d.name).to_multiset().count(d)
+        == (match last_valid(es, d.file) { Some(t) => vd(d.file, t).to_multiset().count(d), None => 0 })
+{
+    let r = run(idx_empty(), es);
+    theorem_C06_index_is_latest_valid_text(es, d.file, d.name);
+    lemma_filter_count(bucket(r.defs, d.name), in_file(d.file), d);
+    assert(pdefs(r, d.file, d.name).to_multiset().count(d) == bucket(r.defs, d.name).to_multiset().count(d));
+    match last_valid(es, d.file) {
+        Some(t) => {
+            lemma_filter_count(vd(d.file, t), named(d.name), d);
+            assert(pdefs(r, d.file, d.name) == vd(d.file, t).filter(named(d.name)));
+        }
+        None => {
+            assert(pdefs(r, d.file, d.name) == Seq::<DefV>::empty());
+            lemma_empty_count(d);
+        }
+    }
+}
+pub proof fn lemma_empty_count<A>(x: A)
+    ensures Seq::<A>::empty().to_multiset().count(x) == 0
+{
+    broadcast use vstd::seq_lib::group_to_multiset_ensures;
+    Seq::<A>::empty().to_multiset_ensures();
+    if Seq::<A>::empty().to_multiset().count(x) > 0 { assert(Seq::<A>::empty().contains(x)); }
+}
